@@ -554,8 +554,8 @@ bool Message::checkLevel(const string& level, const string& checkLevels) {
   if (checkLevels.empty()) {
     return false;
   }
-  if (checkLevels == "*") {
-    return true;
+  if (checkLevels == "*" || (level != "*" && checkLevel("*", checkLevels))) {
+    return true;  // all levels granted (also as part of a list)
   }
   size_t len = level.length();
   size_t maxLen = checkLevels.length();
